@@ -869,6 +869,9 @@ class CallMixin:
         elif cat == "mutate":
             self.effect("write", site, st, fr, node=pos[0] if pos else n,
                         roots=self.roots(pos[0]) if pos else [], idx=None, value=n, how=q)
+            if pos and q.startswith("numpy."):
+                st.cur[pos[0].id] = n           # the argument's contents after the call
+                self._propagate_view_write(pos[0], n, st, site)
         return n
 
     def _phi_tuple_len(self, v):
